@@ -123,3 +123,35 @@ Proof.
   { destruct Hlt as [Ha Hb]. apply lt_IZR in Hb. change (-1)%R with (IZR (-1)) in Ha. apply lt_IZR in Ha. lia. }
   rewrite Hz in Hd. simpl in Hd. lra.
 Qed.
+
+(* ---- the wrap is a canonical representative mod pi (session 3) ---- *)
+From Coq Require Import Lra Lia.
+Lemma wrap_repr_unique (a b : R) (k : Z) : (0 <= a < PI)%R -> (0 <= b < PI)%R -> (a = b + IZR k * PI)%R -> a = b.
+Proof.
+  intros Ha Hb E. assert (Hpi := PI_RGT_0).
+  destruct (Z_le_gt_dec k (-1)) as [H|H].
+  - apply IZR_le in H. nra.
+  - destruct (Z_le_gt_dec 1 k) as [H1|H1].
+    + apply IZR_le in H1. nra.
+    + assert (k = 0%Z) by lia. subst k. lra.
+Qed.
+
+Lemma wrap_fixes_range x : (0 <= x < PI)%R -> wrap_value x = x.
+Proof.
+  intros Hx. destruct (wrap_range_congruent x) as [Hr [k E]]. exact (wrap_repr_unique _ _ k Hr Hx E).
+Qed.
+
+Lemma wrap_idempotent x : wrap_value (wrap_value x) = wrap_value x.
+Proof. apply wrap_fixes_range. apply (wrap_range_congruent x). Qed.
+
+Lemma wrap_periodic x (m : Z) : wrap_value (x + IZR m * PI) = wrap_value x.
+Proof.
+  destruct (wrap_range_congruent (x + IZR m * PI)) as [H1 [k1 E1]].
+  destruct (wrap_range_congruent x) as [H2 [k2 E2]].
+  apply (wrap_repr_unique _ _ (m + k1 - k2) H1 H2).
+  rewrite minus_IZR, plus_IZR. lra.
+Qed.
+
+(* two angles that differ by a multiple of pi (the same position angle) are reported identically *)
+Lemma wrap_canonical x y (m : Z) : (y = x + IZR m * PI)%R -> wrap_value y = wrap_value x.
+Proof. intros ->. apply wrap_periodic. Qed.
